@@ -40,10 +40,13 @@ Inductive out : Set :=
 | Deliver (k : sink) (d : dlv)
 | Ret (ok : bool).
 
-Record tr : Set := mkTr { session : option Z; required : bool }.
+(* dgram: the transport's socket supports the non-blocking datagram `try_send` (UDP); on a TCP (RFC 4571)
+   socket `IceSocketWrapper::try_send_to` fails, so the synchronous BYE and the bridge fast path emit nothing *)
+Record tr : Set := mkTr { session : option Z; required : bool; dgram : bool }.
 Record st : Set := mkSt { a : tr; b : tr; bridge : bool; closed : bool }.
 
-Definition init (ra rb : bool) : st := mkSt (mkTr None ra) (mkTr None rb) false false.
+Definition init_on (da db ra rb : bool) : st := mkSt (mkTr None ra da) (mkTr None rb db) false false.
+Definition init (ra rb : bool) : st := init_on true true ra rb.
 
 Inductive op : Set :=
 | InstallKeys (ks : Z)                (* start_srtp on the transport *)
@@ -78,6 +81,9 @@ Definition emit (g : gact) (s : sock) (ks : option Z) (p : Z) : list out :=
   | GClear => [Wire s (Clear p)]
   end.
 Definition sent (g : gact) : bool := match g with GDrop => false | _ => true end.
+(* the `try_send` senders (sync BYE, bridge fast path) on a socket without datagram try_send *)
+Definition emit_try (t : tr) (g : gact) (s : sock) (p : Z) : list out :=
+  if dgram t then emit g s (session t) p else [].
 
 Definition unprotect (ks : option Z) (w : wire) : option dlv :=
   match ks, w with
@@ -101,8 +107,8 @@ Definition step (s : st) (o : op) : st * list out :=
   let A := a s in
   let B := b s in
   match o with
-  | InstallKeys k => (set_a s (mkTr (Some k) (required A)), [])
-  | TInstallKeys k => (set_b s (mkTr (Some k) (required B)), [])
+  | InstallKeys k => (set_a s (mkTr (Some k) (required A) (dgram A)), [])
+  | TInstallKeys k => (set_b s (mkTr (Some k) (required B) (dgram B)), [])
   | Send p wf =>
       match gate_send (has A) (required A) with
       | GProtect => if wf then (s, emit GProtect SockA (session A) p ++ [Ret true]) else (s, [Ret false])
@@ -116,14 +122,14 @@ Definition step (s : st) (o : op) : st * list out :=
       let g := gate_send_rtcp (has A) (required A) in
       (s, emit g SockA (session A) p ++ [Ret (sent g)])
   | SyncBye p =>
-      (s, emit (gate_send_rtcp_sync (has A) (required A)) SockA (session A) p)
+      (s, emit_try A (gate_send_rtcp_sync (has A) (required A)) SockA p)
   | RecvRtp w =>
       match accept (gate_recv_rtp (has A) (required A)) (session A) w with
       | None => (s, [])
       | Some d =>
           if bridge s then
             (s, Deliver SObsIn d :: Deliver SBridge d ::
-                emit (gate_bridge (has B) (required B)) SockB (session B) (dlv_pid d))
+                emit_try B (gate_bridge (has B) (required B)) SockB (dlv_pid d))
           else
             (s, Deliver SObsIn d :: (if closed s then [] else [Deliver SListener d]))
       end
@@ -135,7 +141,7 @@ Definition step (s : st) (o : op) : st * list out :=
   | SetBridge => (set_bridge s true, [])
   | ClearBridge => (set_bridge s false, [])
   | Close p =>
-      (set_closed s, emit (gate_send_rtcp_sync (has A) (required A)) SockA (session A) p)
+      (set_closed s, emit_try A (gate_send_rtcp_sync (has A) (required A)) SockA p)
   end.
 
 Fixpoint run (s : st) (ops : list op) : st :=
@@ -165,6 +171,17 @@ Fixpoint last_b (acc : option Z) (ops : list op) : option Z :=
   | _ :: r => last_b acc r
   end.
 
+(* the one place where the outcome depends on the BYTES of a datagram rather than on how it was protected:
+   protected RTCP handed to the plain RTCP parser.  Run/C14Run.v predicts it with the byte-level model of
+   parse_rtcp_packets (Model/Rtcp.v); C14_plain_rtcp_only_unprotected_mode shows it only happens in a
+   transport that is not SRTP-mandatory and has no keys *)
+Definition plain_rtcp_path (s : st) (o : op) : bool :=
+  match o with
+  | RecvRtcp (Prot _ _ _) =>
+      match gate_recv_rtcp (has (a s)) (required (a s)) with RPlain => true | _ => false end
+  | _ => false
+  end.
+
 (* sinks that hand INBOUND traffic to the application / a bridged peer *)
 Definition inbound (k : sink) : bool :=
   match k with SObsOut => false | _ => true end.
@@ -185,6 +202,7 @@ Definition spec_rgate (has_session required : bool) : ract :=
 Local Open Scope string_scope.
 
 Inductive site_class : Set := GatedSender | BridgeFastPath | DtlsRecord.
+(* IceConn::send_dtls_record_batch calling IceConn::send on itself (UDP fallback of the DTLS flight sender) is a DtlsRecord site *)
 
 (* every call of an IceConn sender in src/: (file, function, callee, receiver, count) *)
 Definition allowed_sites : list ((string * string * callee * string * Z) * site_class) := [
@@ -193,6 +211,7 @@ Definition allowed_sites : list ((string * string * callee * string * Z) * site_
   (("src/transports/rtp.rs", "RtpTransport::send_rtcp", CSendRtcp, "self.transport", 1), GatedSender);
   (("src/transports/rtp.rs", "RtpTransport::send_rtcp_sync", CTrySend, "self.ice_conn()", 1), GatedSender);
   (("src/transports/rtp.rs", "RtpTransport::try_bridge_rewrite_rtp", CTrySend, "target.ice_conn()", 1), BridgeFastPath);
+  (("src/transports/ice/conn.rs", "IceConn::send_dtls_record_batch", CSend, "self", 1), DtlsRecord);
   (("src/transports/dtls/mod.rs", "DtlsInner::handle_client_hello", CSendBatch, "self.conn", 2), DtlsRecord);
   (("src/transports/dtls/mod.rs", "DtlsInner::handle_finished", CSendBatch, "self.conn", 1), DtlsRecord);
   (("src/transports/dtls/mod.rs", "DtlsInner::handle_hello_verify_request", CSend, "self.conn", 1), DtlsRecord);
@@ -240,6 +259,31 @@ Definition allowed_ice_conn_uses : list (string * string * string * string * Z) 
   ("src/peer_connection.rs", "PeerConnection::update_rtcp_mux_from_remote", "ice_conn", "bind:ice_conn", 2);
   ("src/transports/rtp.rs", "RtpTransport::send_rtcp_sync", "ice_conn", "try_send", 1);
   ("src/transports/rtp.rs", "RtpTransport::try_bridge_rewrite_rtp", "ice_conn", "try_send", 1)].
+
+(* every function whose signature mentions IceConn (a helper that takes or hands out the raw connection) *)
+Definition allowed_carriers : list (string * string * string) := [
+  ("src/peer_connection.rs", "PeerConnection::create_pair_monitor", "param");   (* address updates only *)
+  ("src/transports/dtls/mod.rs", "DtlsTransport::new", "param");                (* stored in DtlsInner.conn: DTLS record senders *)
+  ("src/transports/rtp.rs", "RtpTransport::ice_conn", "ret");                   (* every call is in ice_conn_uses *)
+  ("src/transports/rtp.rs", "RtpTransport::new", "param");
+  ("src/transports/rtp.rs", "RtpTransport::new_with_ssrc_change", "param")].
+
+(* every struct field that holds an IceConn *)
+Definition allowed_holders : list (string * string * string) := [
+  ("src/transports/dtls/mod.rs", "conn", "Arc<IceConn>");
+  ("src/transports/rtp.rs", "transport", "Arc<IceConn>")].
+
+(* traits implemented for IceConn: none of them can send (0 send / socket-write sites inside the impl) *)
+Definition allowed_trait_impls : list (string * string * string * Z) := [
+  ("src/transports/ice/conn.rs", "PacketReceiver", "receive", 0);
+  ("src/transports/ice/conn.rs", "StatsProvider", "collect", 0)].
+
+(* PacketReceiver impls: none writes to a socket from inside the impl block itself (RtpTransport::receive calls
+   try_bridge_rewrite_rtp, which is in send_sites) *)
+Definition allowed_receiver_impls : list (string * string * Z * Z) := [
+  ("src/transports/dtls/mod.rs", "DtlsTransport", 0, 0);
+  ("src/transports/ice/conn.rs", "IceConn", 0, 0);
+  ("src/transports/rtp.rs", "RtpTransport", 0, 0)].
 
 (* an RtpTransport is created with srtp_required = (mode <> Rtp), or with `false` on paths that are only
    reachable when transport_mode == TransportMode::Rtp *)
